@@ -6,7 +6,8 @@ open RedunModel RedunModel.CacheHist
      hist (V <simpleExprValid T|F> <cseSubtreeFromDb T|F> <noCatchCache T|F>) (tbl (i<name> i<ver> <spec>)*) (steps <step>*)
      spec ::= (ret <tm>) | (raise i<cls>)
      tm   ::= arg | numarg | i<int> | (file i<p>) | (add <tm> <tm>) | (call i<name> <tm>) | (catch <tm> i<cls> i<rec>)
-     step ::= (step (code (i<name> i<ver> <shallow T|F> <pinned T|F>)*) (fs (i<p> i<stamp>)*) (root i<name> <val>))
+     step ::= (step (code (i<name> i<ver> <shallow T|F> <pinned T|F>)*) (fs (i<p> i<stamp>)*) (root i<name> <val>)
+                    (err (i<name> i<ver> <val>)*))     -- failed jobs whose rejection was processed (observed)
      val  ::= i<int> | (file i<p> i<stamp>)
    reply: one item per step joined by " ; ":   <res> | <called keys, in call order>
      res ::= ok:<val> | err:<cls> | fuel        key ::= <name>.<ver>(<val>)                                  -/
@@ -61,6 +62,13 @@ def fsRows : List Sexp → Option (List (Nat × Nat))
     pure (e :: (← fsRows r))
   | _ => none
 
+def keyRows : List Sexp → Option (List Key)
+  | [] => some []
+  | .list [n, v, a] :: r => do
+    let e : Key := (⟨← natA n, ← natA v⟩, ← valOf a)
+    pure (e :: (← keyRows r))
+  | _ => none
+
 def codeOf (rows : List (Nat × Nat × Bool × Bool)) : Code where
   ver n := match lookup n rows with | some (v, _) => v | none => 0
   shallow n := match lookup n rows with | some (_, s, _) => s | none => false
@@ -69,10 +77,11 @@ def codeOf (rows : List (Nat × Nat × Bool × Bool)) : Code where
 def fsOf (rows : List (Nat × Nat)) : FS := fun p => (lookup p rows).getD 0
 
 def stepOf : Sexp → Option RunIn
-  | .list [.atom "step", .list (.atom "code" :: cr), .list (.atom "fs" :: fr), .list [.atom "root", n, a]] => do
+  | .list [.atom "step", .list (.atom "code" :: cr), .list (.atom "fs" :: fr), .list [.atom "root", n, a],
+           .list (.atom "err" :: er)] => do
     let c ← codeRows cr
     let f ← fsRows fr
-    pure { code := codeOf c, fs := fsOf f, root := .call (← natA n) (.lit (← valOf a)), fuel := 200 }
+    pure { code := codeOf c, fs := fsOf f, root := .call (← natA n) (.lit (← valOf a)), fuel := 200, errRec := ← keyRows er }
   | _ => none
 
 def stepsOf : List Sexp → Option (List RunIn)
